@@ -50,7 +50,9 @@ def generate(ctx):
                 break
         desc = {"part": "conv", "geom": [h, w, rng.randint(1, 3), rng.randint(1, 3), kh, kw, s, p, d],
                 "bias": rng.random() < 0.5, "B": rng.randint(1, 4), "seed": rng.randrange(1 << 30),
-                "stride2": rng.choice([None, [rng.randint(1, 2), rng.randint(1, 3)]])}
+                "stride2": rng.choice([None, [rng.randint(1, 2), rng.randint(1, 3)]]),
+                # per-synapse delays (the per-filter synaptic layout): input held constant past the longest delay
+                "delay_steps": rng.choice([None, None, None, 1, 2])}
         # rectangular padding / dilation (kept only when the output stays non-empty)
         p2, d2 = [rng.randint(0, 2), rng.randint(0, 2)], [rng.randint(1, 2), rng.randint(1, 2)]
         if rng.random() < 0.5 and (h + 2 * p2[0] - d2[0] * (kh - 1) - 1) >= 0 and (w + 2 * p2[1] - d2[1] * (kw - 1) - 1) >= 0:
@@ -118,6 +120,13 @@ def _helpers(ctx, conn, x, out_nobias, desc, tag):
         return ctx.violation(f"{tag}.receptive.not_broadcastable", f"receptive view does not broadcast against the weight: {e}", desc)
     if full_pre[0] != B or full_pre[1:1 + W.ndim] != tuple(W.shape) or full_post[0] != B or full_post[1:1 + W.ndim] != tuple(W.shape):
         return ctx.violation(f"{tag}.receptive.broadcast_shape", f"pre {tuple(pre.shape)} post {tuple(post.shape)} weight {tuple(W.shape)}", desc)
+    # the per-output reduction of the postsynaptic view (what a bias-level learning rule produces) maps onto the bias
+    red = post.mean(dim=-1).mean(dim=0)
+    lb = conn.like_bias(red)
+    ctx.count("bias_layout_checks")
+    bshape = tuple(conn.bias.shape) if conn.biased else (int(red.numel()),)
+    if tuple(lb.shape) != bshape or not torch.equal(lb.reshape(-1), red.reshape(-1)):
+        return ctx.violation(f"{tag}.like_bias", f"like_bias maps {tuple(red.shape)} to {tuple(lb.shape)}, bias is {bshape}", desc)
     R = full_pre[-1]
     if full_post[-1] != R:
         return ctx.violation(f"{tag}.receptive.pre_post_receptive_axis", f"pre R={R} post R={full_post[-1]}", desc)
@@ -221,9 +230,13 @@ def _conv(ctx, desc):
     B = desc["B"]
     g = torch.Generator().manual_seed(desc["seed"])
     try:
+        K = desc.get("delay_steps")
         conn = Conv2D(h, w, c, f, 1.0, (kh, kw), stride=stride, padding=p, dilation=d, synapse=_syn(), bias=desc["bias"],
-                      batch_size=B)
+                      batch_size=B, delay=(float(K) if K else None))
         conn.to(torch.float64)
+        if K:
+            conn.delay = torch.randint(0, K + 1, conn.delay.shape, generator=g).to(torch.float64)
+            ctx.count("delayed_conv_cases")
     except Exception as e:  # noqa: BLE001
         return ctx.violation(ctx.exc_signature(e, "construct.conv"), f"{type(e).__name__}: {str(e)[:140]}", desc)
     conn.weight = torch.randn(conn.weight.shape, generator=g, dtype=torch.float64)
@@ -236,6 +249,8 @@ def _conv(ctx, desc):
     if tuple(conn.outshape) != tuple(ref.shape[1:]) or tuple(conn.inshape) != (c, h, w):
         return ctx.violation("conv.advertised_shape", f"outshape {conn.outshape} but a 2-D cross-correlation gives {tuple(ref.shape[1:])}", desc)
     try:
+        for _ in range(K or 0):
+            _drive(conn, x)          # fill the delay window with the same input
         out = _drive(conn, x)
     except Exception as e:  # noqa: BLE001
         return ctx.violation(ctx.exc_signature(e, "forward.conv"), f"{type(e).__name__}: {str(e)[:140]}", desc)
